@@ -159,9 +159,39 @@ def shapes(tier):
     out.append(enum_shape("default_text", "LowerHex", "lower_hex", "{:x}", hexv, "X{{", "", False, quick=False))
     out.append(enum_shape("wrap_twice", "Octal", "octal", "{:o}", hexv, "{_variant}|{_variant}", "", True, quick=False))
     out.append(enum_shape("wrap_variant_only", "UpperExp", "upper_exp", "{:E}", hexv, "{_variant}", "", True, quick=False))
+    out.append(bare_variant_flags_shape())
     if tier == "quick":
         out = [s for s in out if s.quick]
     return out
+
+
+def bare_variant_flags_shape():
+    """A bare enum-level `{_variant}` on a derive other than Display still *wraps* (it renders the variant and interpolates the text under
+    Display), so the caller's flags do not reach the fields: the output is the same under every caller format spec.  (For derive(Display) the same
+    attribute counts as absent and the variant is delegated to - that side is C05's.)"""
+    decl = ('#[derive(derive_more::LowerHex)]\n#[lower_hex("{_variant}")]\npub enum E {\n    A(Probe),\n    #[lower_hex("{_0:x}")]\n    B(Probe),\n}\n'
+            '#[derive(derive_more::Binary)]\n#[binary("{}", _variant)]\npub enum F {\n    A(Probe),\n}')
+    src = """    #[kani::proof]
+    #[kani::unwind(10)]
+    fn callers_flags_do_not_reach_the_fields() {
+        let o = any_opts();
+        let e = if kani::any() { E::A(%(P)s) } else { E::B(%(P)s) };
+        let (s1, t1) = run_fmt!(LowerHex, &e, o);
+        let (s2, t2) = run_fmt!(LowerHex, &e, FormattingOptions::new());
+        assert!(!s1.overflow && !s2.overflow, "HARNESS: sink too small");
+        assert!(s1.same(&s2) && t1 == t2, "lower_hex: under a bare enum-level _variant placeholder the variant is rendered by itself: the caller's flags must not reach the field");
+        let f = F::A(%(P)s);
+        let (s3, t3) = run_fmt!(Binary, &f, o);
+        let (s4, t4) = run_fmt!(Binary, &f, FormattingOptions::new());
+        assert!(s3.same(&s4) && t3 == t4, "binary: the same with _variant as an argument");
+        kani::cover!(o.get_width().is_some() && matches!(e, E::A(..)), "reach A with a width");
+        kani::cover!(matches!(e, E::B(..)), "reach B");
+    }
+""" % dict(P=P)
+    return Shape("c07_bare_variant_on_non_display_derives", module(decl, src),
+                 [Harness("callers_flags_do_not_reach_the_fields", "the caller's FormattingOptions fully symbolic, the variant and probe ids symbolic", covers=2, unwind=10,
+                          asserts="derive(LowerHex / Binary) with a bare enum-level `{_variant}`: output and probe trace do not depend on the caller's format spec")],
+                 decl.replace("\n", " "), exercises=["impl/src/fmt/display.rs::Expansion::shared_attr_info"], crate_attrs=CRATE_ATTRS)
 
 
 DESCRIPTION = {
